@@ -18,6 +18,9 @@ pub struct Variant {
     pub xfilter: Filter,
     pub ofilter: Filter,
     pub prefix: usize,
+    /// every cross-reference stream of the file has the same object number (an update may redefine the number of the older
+    /// section's stream, which is still reached through /Prev by its offset)
+    pub same_xid: bool,
 }
 
 pub fn variants() -> Vec<Variant> {
@@ -27,7 +30,7 @@ pub fn variants() -> Vec<Variant> {
             for (k, xf) in [Filter::None, Filter::Flate].iter().enumerate() {
                 let ofilter = if (i + j + k) % 2 == 0 { Filter::Flate } else { Filter::None };
                 let prefix = if (i + j) % 3 == 1 { 7 } else { 0 };
-                v.push(Variant { split: *split, w: *w, xfilter: *xf, ofilter, prefix });
+                v.push(Variant { split: *split, w: *w, xfilter: *xf, ofilter, prefix, same_xid: (j + k) % 2 == 1 });
             }
         }
     }
@@ -59,7 +62,7 @@ pub fn build(case: &Value, var: &Variant) -> Built {
         let i = si as u64 + 1;
         let fmt = sec["fmt"].as_str().unwrap();
         let container = nobj + 2 + 2 * i - 1;
-        let xid = nobj + 2 + 2 * i;
+        let xid = if var.same_xid { nobj + 40 } else { nobj + 2 + 2 * i };
         let mut entries: Vec<(u64, XEntry)> = Vec::new();
         if si == 0 {
             entries.push((0, XEntry::Free { next: 0, gen: 65535 }));
